@@ -263,7 +263,8 @@ def run(ctx):
                      ("simulate-to-12-joints", cfg(12, 8, "X3", "Q3", "A5", "TRUE"), 3000)]
         for name, c, sim in plans:
             if sim:
-                g = tlc.run("UrdfMC", cfg_text=c, simulate="num=%d" % sim, depth=14, seed=ctx.seed + 1, workers=4, timeout=1200)
+                g = tlc.run("UrdfMC", cfg_text=c, simulate="num=%d" % (sim * (4 if ctx.quick else 1)), depth=14, seed=ctx.seed + 1,
+                            workers=1 if ctx.quick else 4, timeout=1200)
             else:
                 g = tlc.run("UrdfMC", cfg_text=c, timeout=3000, heap="8g")
             ctx.add_tlc(name, g)
